@@ -34,6 +34,8 @@ pub struct World {
     pub cfg: CfgLine,
     /// `$gN` placeholder -> the key the server really generated
     pub generated: BTreeMap<String, String>,
+    /// requests whose body is withheld: id -> (service task, body release, body bytes)
+    inflight: BTreeMap<String, (tokio::task::JoinHandle<(u16, Vec<(String, String)>, Vec<u8>)>, futures::channel::oneshot::Sender<()>, Vec<u8>)>,
 }
 
 fn options(cfg: &CfgLine) -> ServerOptions {
@@ -58,11 +60,12 @@ impl World {
         let state = rt.block_on(AppState::connect(store.clone(), options(&cfg))).expect("AppState::connect");
         let app = build_router(state.clone());
         store.log.take();
-        World { rt, store, state: Some(state), app: Some(app), cfg, generated: BTreeMap::new() }
+        World { rt, store, state: Some(state), app: Some(app), cfg, generated: BTreeMap::new(), inflight: BTreeMap::new() }
     }
 
     /// clean stop, then a new `AppState` over the same store; returns the open databases
     pub fn restart(&mut self) -> Vec<String> {
+        self.inflight.clear();
         *self.store.fault.lock().unwrap() = None;
         if let Some(state) = self.state.take() {
             self.app = None;
@@ -95,6 +98,7 @@ impl World {
     /// of what the store held at that instant (the old instance is then stopped on the old copy,
     /// where it can no longer be observed).
     pub fn crash(&mut self) -> Vec<String> {
+        self.inflight.clear();
         let forked = Arc::new(self.store.fork());
         if let Some(state) = self.state.take() {
             self.app = None;
@@ -144,7 +148,8 @@ impl World {
         }
     }
 
-    pub fn exec(&mut self, r: &Req) -> ImplResp {
+    /// the request head and the bytes of its body
+    fn build(&self, r: &Req) -> (axum::http::request::Builder, Vec<u8>) {
         let mut b = Request::builder().method(r.verb.as_str()).uri(r.raw.clone().unwrap_or_else(|| Self::raw_path(&r.target)));
         if let Some(ct) = r.ct {
             b = b.header(header::CONTENT_TYPE, if ct == Enc::Cbor { "application/cbor" } else { "application/json" });
@@ -175,6 +180,53 @@ impl World {
                 }
             }
         };
+        (b, sent)
+    }
+
+    /// A request whose BODY is withheld: the head is sent, the service is polled until it waits for
+    /// the body (the route layer has authorised from the headers by then), and the body is delivered
+    /// later by [`World::finish`] - after other, complete requests have run.
+    pub fn begin(&mut self, id: &str, r: &Req) {
+        let (b, sent) = self.build(r);
+        let (tx, rx) = futures::channel::oneshot::channel::<()>();
+        let payload = bytes::Bytes::from(sent.clone());
+        let stream = futures::stream::once(async move {
+            let _ = rx.await;
+            Ok::<bytes::Bytes, std::convert::Infallible>(payload)
+        });
+        let req = b.body(AxBody::from_stream(stream)).expect("request");
+        let app = self.app.as_ref().expect("router").clone();
+        let handle = self.rt.spawn(async move {
+            let resp = app.oneshot(req).await.expect("infallible");
+            let status = resp.status().as_u16();
+            let mut headers: Vec<(String, String)> =
+                resp.headers().iter().map(|(k, v)| (k.as_str().to_string(), String::from_utf8_lossy(v.as_bytes()).to_string())).collect();
+            headers.sort();
+            let body = resp.into_body().collect().await.map(|b| b.to_bytes().to_vec()).unwrap_or_default();
+            (status, headers, body)
+        });
+        // let it run up to the point where it waits for the body
+        self.rt.block_on(async {
+            for _ in 0..32 {
+                tokio::task::yield_now().await;
+            }
+        });
+        self.inflight.insert(id.to_string(), (handle, tx, sent));
+    }
+
+    /// delivers the withheld body and collects the answer; the storage footprint is what happened
+    /// from the delivery on (nothing can have been touched before: the handler had not started)
+    pub fn finish(&mut self, id: &str) -> Option<ImplResp> {
+        let (handle, tx, sent) = self.inflight.remove(id)?;
+        self.store.log.take();
+        let _ = tx.send(());
+        let (status, headers, body) = self.rt.block_on(handle).ok()?;
+        let (writes, reads) = self.store.log.take();
+        Some(ImplResp { status, headers, body, writes, reads, sent })
+    }
+
+    pub fn exec(&mut self, r: &Req) -> ImplResp {
+        let (b, sent) = self.build(r);
         let req = b.body(AxBody::from(sent.clone())).expect("request");
         self.store.log.take();
         let app = self.app.as_ref().expect("router").clone();
